@@ -197,17 +197,22 @@ def replay(ctx, path):
 MANIFEST = {
     "level_text": ("Lean 4 proof over an exact model of the typed xDS cache (lruCache on simplelru: Add with both token checks, Get, "
                    "Clear, ClearAll, Flush, evict queue, reverse index; XdsCacheImpl dispatch incl. PeerAuthentication => EDS ClearAll): "
-                   "for every sequence of operations by any number of writers the reverse index is complete, Clear is effective, stale "
-                   "writers are rejected, and under the stated writer discipline no entry older than the latest invalidation of one of its "
-                   "dependencies is ever stored, so Get returns what a fresh generation returns (cache_invisible). The model is tied to "
-                   "/repo on every run by a line-by-line differential on the real cache. Key completeness of the real key functions is "
-                   "validated by differential generation, not proved."),
+                   "for every sequence of operations by any number of writers the reverse index is complete and leak-free, Clear is "
+                   "effective, stale writers are rejected, no stored entry is older than the latest invalidation of one of its "
+                   "dependencies, and under the stated writer discipline and key completeness Get returns what a fresh generation "
+                   "returns for the asking proxy (never_stale, cache_invisible); witnesses show both hypotheses are necessary. The "
+                   "model is tied to /repo on every run by a line-by-line differential on the real cache; the two hypotheses are "
+                   "validated (not proved) on the real key functions and the real cache writers."),
     "level_note": ("Trusted: Lean kernel + {propext, Classical.choice, Quot.sound}; the hand-written model (tied by differential testing "
                    "through model.XdsCache + the read-only hook pilot/pkg/model/zz_verif_c06.go); the harness's order-preserving mapping "
-                   "of logical times to the wall clock read by Clear. Assumed, not proved: writers are coherent (Start stamped after the "
-                   "snapshot is published; ProxyUpdate reads snapshot before clock - observation F8, not reproduced on real code), "
-                   "strictly increasing wall clock, ConfigKey hash injective, KeyComplete for EndpointBuilder/clusterCache/route "
-                   "Cache/SecretResource keys (validated only)."),
-    "technique": "Lean 4 theorems (induction over arbitrary op sequences) over an exact model of the cache state machine + differential correspondence with the real Go cache + property oracle with exhaustive small-interleaving enumeration",
+                   "of logical times to the wall clock read by Clear. Validated only, not proved: KeyComplete for EndpointBuilder / "
+                   "clusterCache / route Cache / SecretResource keys (stream keys: real CDS/EDS/RDS/SDS generators, warm shared cache vs "
+                   "from scratch, single-attribute proxy pairs on generated meshes) and writer coherence of processRequest / "
+                   "pushConnection / debug config dump (stream writers, sequential schedules only, entry points through "
+                   "pilot/pkg/xds/zz_verif_c06.go). Assumed: strictly increasing wall clock, ConfigKey hash injective, no goroutine race "
+                   "between a writer's snapshot read and clock read and initPushContext's Clear/publish (ProxyUpdate: observation F8, "
+                   "not reproduced). Two defects found by these streams were fixed in /repo (SDS key vs mesh-default private key "
+                   "provider; debug config dump pairing LastPushContext with time.Now())."),
+    "technique": "Lean 4 theorems (induction over arbitrary op sequences) over an exact model of the cache state machine + differential correspondence with the real Go cache + property oracle with exhaustive small-interleaving enumeration + differential validation of the proof's hypotheses on the real generators",
     "design_ref": "DESIGN.md section 5 C06",
 }
